@@ -78,8 +78,20 @@ def _kek_enum(m):
     return out
 
 
-def _on_copy(m, method, **kw):
+def _warm(c):
+    """Populate the memo cache of a copy before it is normalised: the result must not depend on it."""
+    for f in (str, lambda x: x.atoms_order, lambda x: x.sssr, lambda x: format(x, 'h'), lambda x: x.connected_components,
+              lambda x: x.chiral_tetrahedrons, lambda x: x.molecular_charge, lambda x: x.brutto):
+        try:
+            f(c)
+        except Exception:
+            pass
+
+
+def _on_copy(m, method, warm=False, **kw):
     c = m.copy()
+    if warm:
+        _warm(c)
     r = getattr(c, method)(**kw)
     rr = r if isinstance(r, (bool, int)) else (len(r) if hasattr(r, '__len__') else None)
     return [rr, str(c), format(c, 'A'), format(c, 'h'), [(n, a.charge, a.is_radical, a.implicit_hydrogens) for n, a in c.atoms()],
@@ -107,11 +119,15 @@ OBSERVERS = {
     'automorphism': lambda m: [sorted(x.items()) for _, x in zip(range(5), m.get_automorphism_mapping())],
     'self_sub': lambda m: (lambda q: None if q is None else [sorted(x.items()) for _, x in zip(range(20), q.get_mapping(m))])(_sub_query(m)),
     'self_sub_all': lambda m: (lambda q: None if q is None else [sorted(x.items()) for _, x in zip(range(20), q.get_mapping(m, automorphism_filter=False))])(_sub_query(m)),
-    'canonicalize': lambda m: _on_copy(m, 'canonicalize'),
-    'standardize': lambda m: _on_copy(m, 'standardize'),
-    'neutralize': lambda m: _on_copy(m, 'neutralize'),
-    'kekule': lambda m: _on_copy(m, 'kekule'),
-    'thiele': lambda m: _on_copy(m, 'thiele'),
+    'canonicalize': lambda m, warm=False: _on_copy(m, 'canonicalize', warm),
+    'standardize': lambda m, warm=False: _on_copy(m, 'standardize', warm),
+    'neutralize': lambda m, warm=False: _on_copy(m, 'neutralize', warm),
+    'kekule': lambda m, warm=False: _on_copy(m, 'kekule', warm),
+    'thiele': lambda m, warm=False: _on_copy(m, 'thiele', warm),
+    'clean_stereo': lambda m, warm=False: _on_copy(m, 'clean_stereo', warm),
+    'clean_isotopes': lambda m, warm=False: _on_copy(m, 'clean_isotopes', warm),
+    'implicify_hydrogens': lambda m, warm=False: _on_copy(m, 'implicify_hydrogens', warm),
+    'explicify_hydrogens': lambda m, warm=False: _on_copy(m, 'explicify_hydrogens', warm),
     'enumerate_kekule': _kek_enum,
     'enumerate_tautomers': _taut,
 }
@@ -120,8 +136,16 @@ for _k in range(len(SMARTS_PANEL)):
     OBSERVERS['smarts%d_all' % _k] = (lambda k: lambda m: _mappings(_query(k), m, False))(_k)
 
 
-def _rxn_on_copy(r, method):
+def _rxn_on_copy(r, method, warm=False):
     c = r.copy()
+    if warm:
+        for f in (str, hash, lambda x: format(x, 'm'), lambda x: x.compose()):
+            try:
+                f(c)
+            except Exception:
+                pass
+        for m in c.molecules():
+            _warm(m)
     res = getattr(c, method)()
     return [res if isinstance(res, (bool, int)) else None, str(c), format(c, 'm')]
 
@@ -133,13 +157,22 @@ RXN_OBSERVERS = {
     'rxn_cgr': lambda r: sorted((min(n, m), max(n, m), b.order, b.p_order) for n, m, b in r.compose().bonds()),
     'rxn_cgr_order': lambda r: [(n, a.atomic_number, a.charge, a.p_charge) for n, a in r.compose().atoms()],
     'rxn_centers': lambda r: list(r.compose().center_atoms),
-    'rxn_canonicalize': lambda r: _rxn_on_copy(r, 'canonicalize'),
-    'rxn_standardize': lambda r: _rxn_on_copy(r, 'standardize'),
-    'rxn_kekule': lambda r: _rxn_on_copy(r, 'kekule'),
-    'rxn_thiele': lambda r: _rxn_on_copy(r, 'thiele'),
+    'rxn_canonicalize': lambda r, warm=False: _rxn_on_copy(r, 'canonicalize', warm),
+    'rxn_standardize': lambda r, warm=False: _rxn_on_copy(r, 'standardize', warm),
+    'rxn_kekule': lambda r, warm=False: _rxn_on_copy(r, 'kekule', warm),
+    'rxn_thiele': lambda r, warm=False: _rxn_on_copy(r, 'thiele', warm),
+    'rxn_clean_stereo': lambda r, warm=False: _rxn_on_copy(r, 'clean_stereo', warm),
+    'rxn_clean_isotopes': lambda r, warm=False: _rxn_on_copy(r, 'clean_isotopes', warm),
+    'rxn_implicify_hydrogens': lambda r, warm=False: _rxn_on_copy(r, 'implicify_hydrogens', warm),
+    'rxn_explicify_hydrogens': lambda r, warm=False: _rxn_on_copy(r, 'explicify_hydrogens', warm),
     'rxn_members': lambda r: [[str(m) for m in r.reactants], [str(m) for m in r.reagents], [str(m) for m in r.products]],
 }
 OBSERVERS.update(RXN_OBSERVERS)
+
+
+WARMABLE = {'canonicalize', 'standardize', 'neutralize', 'kekule', 'thiele', 'clean_stereo', 'clean_isotopes',
+            'implicify_hydrogens', 'explicify_hydrogens', 'rxn_canonicalize', 'rxn_standardize', 'rxn_kekule', 'rxn_thiele',
+            'rxn_clean_stereo', 'rxn_clean_isotopes', 'rxn_implicify_hydrogens', 'rxn_explicify_hydrogens'}
 
 
 def load(src):
@@ -206,7 +239,12 @@ def main():
                 if m is None:
                     continue
                 try:
-                    v = digest(OBSERVERS[ev[2]](m))
+                    fn = OBSERVERS[ev[2]]
+                    if ev[2] in WARMABLE:
+                        # the same key is evaluated on a cold copy (first) and on a copy whose cache was filled (later phases)
+                        v = digest(fn(m, warm=(ev[3] != 'first')))
+                    else:
+                        v = digest(fn(m))
                 except Exception as e:
                     v = 'EXC:' + type(e).__name__
                 out.append([ev[1], ev[2], ev[3], v])
